@@ -107,6 +107,18 @@ CLAIMED['C16'] = dict(
     technique="CFG reachability under guard-true assumptions, decision-table rules on status switches, argument-shape and parameter-forwarding rules over the clang-resolved AST",
     ref="DESIGN.md section 4, C16")
 
+CLAIMED['C09'] = dict(
+    text="Structural necessary conditions, exhaustively over every spxLdexp call and rule instance: each scaling / unscaling step applies the exponent "
+         "its quantity and direction demand (weight table over row and column exponents; exponent expressions reduced to linear forms with locals "
+         "resolved to their nearest preceding definition) and subscripts every exponent array in that array's index domain (row index, column "
+         "index, position inside a sparse vector); LP numbers are written by the scalers only as spxLdexp(old, int) and exponents only from "
+         "integer expressions; user-level accessors never go through the _scaler pointer; writeFile(unscale) writes an unscaled copy with the same "
+         "arguments; the per-row/per-column arrays including the scale exponents move together in every permutation, removal and resize; "
+         "single-index setters compare new and stored value in the same space. Not a proof that scalers choose good exponents or that ldexp does "
+         "not overflow.",
+    technique="linear-form extraction over exponent arrays with a weight table (units-of-measure style), index-domain inference, parallel-array co-movement and guard-shape rules over the clang-resolved AST",
+    ref="DESIGN.md section 4, C09")
+
 NA = {
     'C10': "every clause quantifies over run-time numbers (residuals at rounding level, singular vs. well-conditioned, agreement of multi-rhs solves); "
            "no structural clause is both checkable and necessary (DESIGN.md section 5)",
